@@ -342,3 +342,50 @@ Theorem render_table_new_idem :
 Proof. exact TableRows.render_table_new_idem. Qed.
 Print Assumptions render_table_new_idem.
 
+
+(* the cells of a row one by one (Proofs/DomRows.v): in order-preserving one-to-one correspondence
+   with the row's visible td/th children, each with that child's colspan, content and style *)
+From H2T Require Import Base Tagged Wrap Sub Css Dom Render Api CssParse Proofs.CssTotal Proofs.WrapInv Proofs.RenderWidth Proofs.Conserve Proofs.Footnotes Proofs.AnnBalance Proofs.RenderConserve Proofs.OptionRel Proofs.Compose Proofs.RenderTotal Proofs.FragStream Proofs.SimRel Proofs.Prune Proofs.DomBlocks Proofs.DomRows.
+
+Theorem row_cells_forall2 :
+  forall (sd : styledata) (udc : bool) (inl : list (text * text) -> res (list styledecl))
+         (kids : list node) (me : list anc) (i : Z) (cs : list rnode),
+       process_kids sd udc inl kids me i = Ok cs ->
+       Forall2 (cell_of_kid sd udc inl me) (visible_tdth sd udc inl me kids i) (DomBlocks.cells_of cs).
+Proof. exact DomRows.row_cells_forall2. Qed.
+Print Assumptions row_cells_forall2.
+
+Theorem visible_tdth_length :
+  forall (sd : styledata) (udc : bool) (inl : list (text * text) -> res (list styledecl))
+         (kids : list node) (me : list anc) (i : Z),
+       length (visible_tdth sd udc inl me kids i) = DomBlocks.count_cells sd udc inl me kids i.
+Proof. exact DomRows.visible_tdth_length. Qed.
+Print Assumptions visible_tdth_length.
+
+Theorem tr_cells_forall2 :
+  forall (sd : styledata) (udc : bool) (inl : list (text * text) -> res (list styledecl)) 
+         (name : text) (attrs : list (text * text)) (kids : list node) (p : list anc) 
+         (idx : Z) (inls : list styledecl) (cs : list rnode),
+       let me := {| a_name := name; a_attrs := attrs; a_idx := idx |} :: p in
+       let computed := computed_style sd me inls in
+       (if udc then inl attrs else Ok []) = Ok inls ->
+       DomBlocks.hidden_style computed = false ->
+       process_kids sd udc inl kids me 1 = Ok cs ->
+       cps name = DomBlocks.Nm.tr ->
+       process sd udc inl (NElem true name attrs kids) p idx =
+       Ok
+         (DomBlocks.finish computed true name attrs
+            (Some (RN (ITableRow (RRow (DomBlocks.cells_of cs) computed)) computed))) /\
+       Forall2 (cell_of_kid sd udc inl me) (visible_tdth sd udc inl me kids 1) (DomBlocks.cells_of cs) /\
+       length (DomBlocks.cells_of cs) = DomBlocks.count_cells sd udc inl me kids 1.
+Proof. exact DomRows.tr_cells_forall2. Qed.
+Print Assumptions tr_cells_forall2.
+
+Theorem row_cells_forall2_full :
+  forall (sd : styledata) (udc : bool) (inl : list (text * text) -> res (list styledecl))
+         (kids : list node) (me : list anc) (i : Z) (cs : list rnode),
+       process_kids sd udc inl kids me i = Ok cs ->
+       Forall2 (cell_of_kid_full sd udc inl me) (visible_tdth sd udc inl me kids i) (DomBlocks.cells_of cs).
+Proof. exact DomRows.row_cells_forall2_full. Qed.
+Print Assumptions row_cells_forall2_full.
+
